@@ -49,12 +49,12 @@ func Run(c *ev.Ctx) {
 	groups := cmdlib.FullAlphabet()
 	seedsAll := cmdlib.FullSeeds()
 	phases := []phase{
-		{"catalog-kv-session", []string{"catalog", "kv", "session", "txn", "prepared-query"}, []string{"empty", "catalog+session", "mesh"},
+		{"catalog-kv-session", []string{"catalog", "kv", "session", "txn", "prepared-query"}, []string{"empty", "catalog+session", "mesh", "kv-tree"},
 			[]string{"kv", "session", "catalog", "health", "coordinate", "pq"}, 2},
 		{"config-intentions", []string{"config-entry", "intention", "catalog"}, []string{"mesh", "legacy-intentions", "peering+intentions"},
 			[]string{"config", "intention", "catalog", "health"}, 1},
 		{"ca-peering", []string{"ca", "peering", "misc"}, []string{"acl+ca", "peering+intentions"},
-			[]string{"ca", "peering"}, 1},
+			[]string{"ca", "peering"}, 2},
 	}
 	if !quick {
 		phases[0].Depth, phases[1].Depth, phases[2].Depth = 3, 2, 2
